@@ -225,6 +225,8 @@ def features(b, line_action):
         f.append('groups')
     if any(s['a'] == 'Apply' and s['o']['op'] in ('CreateGroup', 'JoinGroup') and len(s['o']['S']) > 1 for s in b['steps']):
         f.append('multi')   # some member consumes more than one stream: assignments depend on the history
+    if 'LeaveGroup' in ops:
+        f.append('leave')   # a member left: a heap entry without subscribers can exist (it is not rebuilt by Restore)
     return '+'.join(f) or '-'
 
 
